@@ -465,8 +465,9 @@ class MerchantEngine:
                         # Handle list results (e.g., from list comprehensions)
                         if isinstance(result, list):
                             for item in result:
-                                if item:
-                                    resolved.add(str(item).strip().lower())
+                                stripped = str(item).strip() if item else ''
+                                if stripped:
+                                    resolved.add(stripped.lower())
                         else:
                             stripped = str(result).strip()
                             if stripped:
